@@ -2287,6 +2287,10 @@ where
 #[allow(missing_docs)]
 pub mod verif_hooks {
 
+    pub fn is_whitespace(ch: u8) -> bool {
+        super::is_whitespace(ch)
+    }
+
     pub fn get_escaped_branchless_u32(prev_escaped: u32, backslash: u32) -> (u32, u32) {
         let mut p = prev_escaped;
         let r = super::get_escaped_branchless_u32(&mut p, backslash);
